@@ -20,7 +20,7 @@ def record_suite(repo):
     env.update(PYTHONPATH=T.VERIF + os.pathsep + repo, ANYTREE_VERIF_TRACE=path, PYTHONDONTWRITEBYTECODE="1", PYTHONHASHSEED="0",
                ANYTREE_ASSERTIONS="0", TMPDIR=scratch)
     p = subprocess.run([core.PYTHON, "-m", "pytest", "-q", "-p", "no:cacheprovider", "-p", "harness.pytest_tracer", "--timeout=900",
-                        "-x" if False else "-q", "tests"], cwd=repo, env=env, capture_output=True, text=True, timeout=1800)
+                        "tests"], cwd=repo, env=env, capture_output=True, text=True, timeout=1800)
     tail = [l for l in p.stdout.strip().splitlines() if " passed" in l or " failed" in l][-1:] or [""]
     events = []
     with open(path) as f:
